@@ -348,7 +348,7 @@ class Worker(object):
         self.p = None
         self.n = 0
         self.buf = b""
-        self.stderr_path = stderr_path or os.path.join("/verif/.work", "glib_worker_%d.err" % os.getpid())
+        self.stderr_path = stderr_path or os.path.join(os.path.join(os.path.dirname(os.path.dirname(os.path.abspath(__file__))), ".work"), "glib_worker_%d.err" % os.getpid())
         self.timeouts = 0
         self.spawned = 0
 
